@@ -192,6 +192,10 @@ impl Property for C05 {
         // an epoch that is not a whole number of milliseconds (whole microseconds: the log is in us)
         if rng.chance(1, 2) {
             cfg.epoch_sub_us = rng.range(1, 999_999) as u32;
+        } else if rng.chance(1, 6) {
+            // the UNIX epoch itself (and one nanosecond's worth of neighbours is not expressible here: 1 us after it)
+            cfg.epoch_s = 0;
+            cfg.epoch_sub_us = if rng.bool() { 0 } else { 1 };
         }
         // one scenario in six: the simulation duration is exceeded during the run (step then reports
         // an error while a client is unfinished) and the controller keeps calling step
